@@ -1,17 +1,26 @@
 (** C06 — splitting into periods preserves the timeline and the segment identities.
-    Only statements; every proof is [exact <lemma>] (lemmas in theories/PeriodsProofs.v).
-    Model: theories/Periods.v (reduceS, splitPeriod, lastPeriodStartTime of livempd.go). *)
-From Verif Require Import GoSem Timeline Periods PeriodsProofs.
+    Only statements; every proof is [exact <lemma>] (lemmas in theories/PeriodsProofs.v and
+    theories/PeriodsSplit.v).  Model: theories/Periods.v (reduceS, splitPeriod,
+    lastPeriodStartTime and the multi-period tail of LiveMPD in cmd/livesim2/app/livempd.go).
 
-(** reduceS, for ANY <S> list (t present or absent on every element, any repeat count, any
-    order of times) and any period bounds: under the range condition that keeps the uint64/uint32
-    arithmetic from wrapping, the expansion of the output is the part of the expanded input that
-    the walk keeps ([window]: elements before the period start are skipped one by one, the first
-    element at or after the period end stops the walk), provided neighbours of equal duration in
-    that part abut ([runChain] - the run-length encoder merges equal durations without looking
-    at the times); the output elements are maximal runs; for a time-sorted input the returned
-    start number is the given one plus the number of segments before the period (and the given
-    one unchanged when no segment reaches the period start). *)
+    Vocabulary.  [expandP es] is the list of (t, d) pairs of an <S> list as reduceS walks it (t
+    optional on every element, r any int).  [expand] is the same for the elements reduceS writes.
+    [inWin a b x] is a <= t(x) < b.  [chain]: every segment begins where the previous one ends.
+    [periodDurOf pph] = 3600 / pph (integer division, as in the code).
+    [periodTimeline j p] / [periodPTO j p] / [periodStartNr j p]: expanded SegmentTimeline,
+    presentationTimeOffset and startNumber of the j-th AdaptationSet of period p. *)
+From Verif Require Import GoSem Timeline TimelineProofs Periods PeriodsProofs PeriodsSplit.
+
+(** ** reduceS *)
+
+(** For ANY <S> list and any period bounds: under the range condition that keeps the
+    uint64/uint32 arithmetic from wrapping, the expansion of the output is the part of the expanded
+    input that the walk keeps ([window]: elements before the period start are skipped one by one,
+    the first element at or after the period end stops the walk), provided neighbours of equal
+    duration in that part abut ([runChain]: the run-length encoder merges equal durations without
+    looking at the times); the output elements are maximal runs; for a time-sorted input the
+    returned start number is the given one plus the number of segments before the period (and the
+    given one, unchanged, when no segment reaches the period start). *)
 Theorem C06_reduceS_any : forall es snr tsc pS0 pE0,
   let xs := expandP es in
   let ps := u64 (pS0 * u64 tsc) in
@@ -26,10 +35,9 @@ Theorem C06_reduceS_any : forall es snr tsc pS0 pE0,
 Proof. exact reduceS_general. Qed.
 Print Assumptions C06_reduceS_any.
 
-(** The statement of DESIGN.md: for a gap-free timeline (every segment begins where the previous
-    one ends) the expansion of reduceS's output is the FILTER of the expanded input to
-    [p*ts, (p+P)*ts), the output elements are maximal runs, and the start number is
-    nr + |{i | t_i < p*ts}|. *)
+(** The statement of DESIGN.md: for a gap-free timeline the expansion of reduceS's output is the
+    FILTER of the expanded input to [p*ts, (p+P)*ts), the output elements are maximal runs, and
+    the start number is nr + |{i | t_i < p*ts}|. *)
 Theorem C06_reduceS : forall es snr tsc pS0 pE0,
   let xs := expandP es in
   let ps := pS0 * tsc in
@@ -42,3 +50,215 @@ Theorem C06_reduceS : forall es snr tsc pS0 pE0,
     (if reaches ps xs then startNrOf snr + countBefore ps xs else startNrOf snr).
 Proof. exact reduceS_spec. Qed.
 Print Assumptions C06_reduceS.
+
+(** With that start number every segment keeps the number it has in single-period mode: the j-th
+    segment of the window is segment [countBefore ps + j] of the whole timeline. *)
+Theorem C06_numbers_kept : forall ps pe xs, sortedT xs ->
+  forall j x, nthZ j (filter (inWin ps pe) xs) = Some x -> nthZ (countBefore ps xs + j) xs = Some x.
+Proof. exact window_index. Qed.
+Print Assumptions C06_numbers_kept.
+
+(** ** splitPeriod: tiling, ids *)
+
+(** For an accepted periods-per-hour value the periods are numbered consecutively from the one
+    containing the start of the time-shift window to the one containing now; period k has id P<k>
+    ([pd_nr]) and Period@start = k*P: they tile wall-clock time. *)
+Theorem C06_tiles : forall pph seg mode cont st now ases ps,
+  1 <= pph <= 3600 -> 0 < seg -> 0 <= st <= now ->
+  splitPeriod pph seg mode cont st now ases = Ok ps ->
+  let P := periodDurOf pph in
+  let k0 := st / (P * 1000) in
+  let k1 := now / (P * 1000) in
+  map pd_nr ps = seqZ k0 (Z.to_nat (k1 - k0 + 1)) /\
+  map pd_start ps = map (fun k => k * P) (seqZ k0 (Z.to_nat (k1 - k0 + 1))) /\
+  k0 <= k1 /\
+  k0 * P * 1000 <= st < (k0 + 1) * P * 1000 /\
+  k1 * P * 1000 <= now < (k1 + 1) * P * 1000.
+Proof. exact splitPeriod_tiles. Qed.
+Print Assumptions C06_tiles.
+
+(** Ids are stable over time: in the results for any two instants (and any two single-period
+    MPDs), a period's start is its number times P, so equal ids have equal starts and vice versa. *)
+Theorem C06_ids_stable : forall pph seg mode cont st1 now1 st2 now2 ases1 ases2 ps1 ps2 p1 p2,
+  1 <= pph <= 3600 -> 0 < seg -> 0 <= st1 -> 0 <= now1 -> 0 <= st2 -> 0 <= now2 ->
+  splitPeriod pph seg mode cont st1 now1 ases1 = Ok ps1 ->
+  splitPeriod pph seg mode cont st2 now2 ases2 = Ok ps2 ->
+  In p1 ps1 -> In p2 ps2 ->
+  pd_start p1 = pd_nr p1 * periodDurOf pph /\
+  (pd_nr p1 = pd_nr p2 <-> pd_start p1 = pd_start p2).
+Proof. exact splitPeriod_ids_stable. Qed.
+Print Assumptions C06_ids_stable.
+
+(** ** Partition of the single-period timeline (SegmentTimeline modes) *)
+
+(** For every AdaptationSet that carries a SegmentTimeline (all but thumbnails, in both timeline
+    modes), with a gap-free single-period timeline [es] whose values are in range: the
+    concatenation of the periods' expanded timelines is the single-period timeline restricted to
+    [k0*P*ts, (k1+1)*P*ts); period k holds exactly the segments that start in [k*P*ts, (k+1)*P*ts)
+    with unchanged (t, d); its presentationTimeOffset is Period@start in the media timescale
+    (so t - PTO + start*ts = t); in Timeline-Number mode its startNumber is the single-period
+    startNumber plus the number of segments before the period (cf. [C06_numbers_kept]) - unless
+    no listed segment reaches the period start, when the unchanged single-period startNumber is
+    written next to an empty timeline. *)
+Theorem C06_partition : forall pph seg mode cont st now ases ps j a es,
+  1 <= pph <= 3600 -> 0 < seg -> 0 <= st <= now ->
+  splitPeriod pph seg mode cont st now ases = Ok ps ->
+  nth_error ases j = Some a -> templateType mode a <> MNumber -> a_tl a = Some es ->
+  let P := periodDurOf pph in
+  let k0 := st / (P * 1000) in
+  let k1 := now / (P * 1000) in
+  let ts := tsOf a in
+  goodTL es (snrFor mode a) ts ((k1 + 1) * P) ->
+  flat_map (periodTimeline j) ps = filter (inWin (k0 * P * ts) ((k1 + 1) * P * ts)) (expandP es) /\
+  Forall (fun p => periodTimeline j p = filter (inWin (pd_nr p * P * ts) ((pd_nr p + 1) * P * ts)) (expandP es) /\
+                   periodPTO j p = Some (pd_start p * ts) /\
+                   (mode = MTimelineNr ->
+                    periodStartNr j p =
+                    Some (if reaches (pd_nr p * P * ts) (expandP es)
+                          then startNrOf (a_startNr a) + countBefore (pd_nr p * P * ts) (expandP es)
+                          else startNrOf (a_startNr a)))) ps.
+Proof. exact splitPeriod_partition. Qed.
+Print Assumptions C06_partition.
+
+(** When every listed segment starts before the end of the last period (which holds whenever the
+    availabilityTimeOffset is smaller than the segment duration: a listed segment has ended by
+    now + ato), the right-open window is the restriction to t >= start of the first period. *)
+Theorem C06_partition_open : forall lo hi xs, Forall (fun x => fst x < hi) xs ->
+  filter (inWin lo hi) xs = filter (fun x => lo <=? fst x) xs.
+Proof. exact filter_win_open. Qed.
+Print Assumptions C06_partition_open.
+
+(** Every segment of the single-period timeline that starts in [k0*P, (k1+1)*P) is in exactly one
+    period: the one containing its start. *)
+Theorem C06_exactly_one : forall pph seg mode cont st now ases ps j a es,
+  1 <= pph <= 3600 -> 0 < seg -> 0 <= st <= now ->
+  splitPeriod pph seg mode cont st now ases = Ok ps ->
+  nth_error ases j = Some a -> templateType mode a <> MNumber -> a_tl a = Some es ->
+  let P := periodDurOf pph in
+  let k0 := st / (P * 1000) in
+  let k1 := now / (P * 1000) in
+  let ts := tsOf a in
+  goodTL es (snrFor mode a) ts ((k1 + 1) * P) ->
+  forall x, In x (expandP es) -> k0 * P * ts <= fst x < (k1 + 1) * P * ts ->
+  exists p, In p ps /\ In x (periodTimeline j p) /\
+            pd_start p * ts <= fst x < (pd_start p + P) * ts /\
+            forall p', In p' ps -> In x (periodTimeline j p') -> pd_nr p' = pd_nr p.
+Proof. exact splitPeriod_exactly_one. Qed.
+Print Assumptions C06_exactly_one.
+
+(** A listed segment that starts at or after the end of the last period is in no period. Such a
+    segment exists only with an availabilityTimeOffset of at least one segment duration
+    (ato_3, 2 s segments, periods_60, now = 59 s: [60 s, 62 s) is listed in single-period mode,
+    P1 does not exist yet and P0 ends at 60 s).  Outside the quantifier of the property (no
+    availabilityTimeOffset there); the hypothesis of [C06_partition_open] excludes it. *)
+Theorem C06_late_segment_refuted :
+  In (5400000, 180000) (expandP atoTL) /\
+  splitPeriod 60 2000 MTimelineTime false 0 59000
+    [ {| a_image := false; a_ts := Some 90000; a_dur := None; a_startNr := None; a_tl := Some atoTL |} ] =
+  Ok [ {| pd_nr := 0; pd_start := 0;
+          pd_as := [ {| o_pto := 0; o_startNr := None; o_tl := Some [ {| p_t := Some 0; p_d := 180000; p_r := 29 |} ]; o_cont := false |} ] |} ].
+Proof. exact late_segment_witness. Qed.
+Print Assumptions C06_late_segment_refuted.
+
+(** ** $Number$ mode *)
+
+(** Constant duration d with d | P*ts: period k gets startNumber k*P*ts/d and
+    presentationTimeOffset k*P*ts = startNumber*d. *)
+Theorem C06_number_mode : forall mode cont k P a o d,
+  templateType mode a = MNumber -> splitAS mode cont k P a = Ok o -> a_dur a = Some d ->
+  0 <= k -> 0 < P -> 0 < tsOf a -> 0 < d -> (P * tsOf a) mod d = 0 ->
+  k * P * tsOf a < two64 -> k * P * tsOf a < two32 * d ->
+  exists n, o_startNr o = Some n /\ n = k * (P * tsOf a / d) /\ n * d = k * P * tsOf a /\
+            o_pto o = k * P * tsOf a.
+Proof. exact number_mode_aligned. Qed.
+Print Assumptions C06_number_mode.
+
+(** ... which is the number C01 gives the segment starting at k*P: in a constant-duration
+    representation segment n of the looped timeline starts at n*d. *)
+Theorem C06_number_is_C01 : forall r loopMS d, wf r loopMS -> Forall (fun s => sdur s = d) (segs r) ->
+  forall n, 0 <= n -> S r n = n * d.
+Proof. exact const_rep_S. Qed.
+Print Assumptions C06_number_is_C01.
+
+(** The guard of splitPeriod gives d | P*ts when asset.SegmentDurMS is exactly d/ts. *)
+Theorem C06_guard_aligned : forall P seg ts d, 0 < seg -> 0 < ts -> 0 < d -> seg * ts = 1000 * d ->
+  (P * 1000) mod seg = 0 -> (P * ts) mod d = 0.
+Proof. exact guard_aligned. Qed.
+Print Assumptions C06_guard_aligned.
+
+(** $Number$ mode with snr_5: period k gets k*P*ts/d although the single-period MPD starts at 5
+    (outside the quantifier of the property: no start number there; observation). *)
+Theorem C06_number_mode_snr_refuted :
+  splitPeriod 60 2000 MNumber false 60500 120500
+    [ {| a_image := false; a_ts := None; a_dur := Some 2; a_startNr := Some 5; a_tl := None |} ] =
+  Ok [ {| pd_nr := 1; pd_start := 60; pd_as := [ {| o_pto := 60; o_startNr := Some 30; o_tl := None; o_cont := false |} ] |};
+       {| pd_nr := 2; pd_start := 120; pd_as := [ {| o_pto := 120; o_startNr := Some 60; o_tl := None; o_cont := false |} ] |} ].
+Proof. exact snr_witness. Qed.
+Print Assumptions C06_number_mode_snr_refuted.
+
+(** publishTime in multi-period $Number$ mode = availabilityStartTime + start of the last period. *)
+Theorem C06_publish_number : forall loopMS c now tsbdMS pph seg cont ases ps pt,
+  1 <= pph <= 3600 -> 0 < seg -> 0 <= startS c -> startS c * 1000 <= now -> 0 <= tsbdMS ->
+  livePeriods loopMS c now tsbdMS pph seg MNumber cont ases = Ok (ps, pt) ->
+  pt = Some (startS c + now / (periodDurOf pph * 1000) * periodDurOf pph).
+Proof. exact livePeriods_publish. Qed.
+Print Assumptions C06_publish_number.
+
+(** ** Rejection, continuity, range of periods-per-hour *)
+
+(** A period duration that is not a multiple of asset.SegmentDurMS is rejected with an error, and
+    nothing else is. *)
+Theorem C06_reject : forall pph seg mode cont st now ases,
+  1 <= pph <= 3600 -> 0 < seg ->
+  ((periodDurOf pph * 1000) mod seg <> 0 <->
+   exists e, splitPeriod pph seg mode cont st now ases = Err e).
+Proof. exact splitPeriod_reject. Qed.
+Print Assumptions C06_reject.
+
+(** ... but asset.SegmentDurMS is the minimum over the representations of the rounded average
+    segment duration: for the 29.97 fps asset it is 2000 ms while the video segments last
+    2.002 s, so periods_1 is accepted and period 1 starts inside segment 1798 (finding
+    c06-reject-uses-min-rep-duration). *)
+Theorem C06_reject_refuted :
+  (3600 * 1000 * 30000) mod (60060 * 1000) <> 0 /\
+  splitPeriod 1 2000 MNumber false 3541000 3601000 [wave2997] =
+    Ok [ {| pd_nr := 0; pd_start := 0; pd_as := [ {| o_pto := 0; o_startNr := Some 0; o_tl := None; o_cont := false |} ] |};
+         {| pd_nr := 1; pd_start := 3600;
+            pd_as := [ {| o_pto := 108000000; o_startNr := Some 1798; o_tl := None; o_cont := false |} ] |} ] /\
+  1798 * 60060 <> 108000000.
+Proof. exact reject_witness. Qed.
+Print Assumptions C06_reject_refuted.
+
+(** Continuity is signalled in every AdaptationSet of every period iff requested. *)
+Theorem C06_continuity : forall mode cont k P a o,
+  splitAS mode cont k P a = Ok o -> o_pto o = u64 (k * P * tsOf a) /\ o_cont o = cont.
+Proof. exact splitAS_common. Qed.
+Print Assumptions C06_continuity.
+
+(** periods_0 and every value above 3600: integer division by zero (a handler panic). *)
+Theorem C06_pph_range_refuted :
+  (forall seg mode cont st now ases,
+     splitPeriod 0 seg mode cont st now ases = Panic "splitPeriod: integer divide by zero") /\
+  (forall pph seg mode cont st now ases, 3600 < pph ->
+     splitPeriod pph seg mode cont st now ases = Panic "splitPeriod: integer divide by zero").
+Proof. exact (conj splitPeriod_pph_zero splitPeriod_pph_big). Qed.
+Print Assumptions C06_pph_range_refuted.
+
+(** ** Non-vacuity: testpic-like timeline (2 s segments at 90 kHz with one 4 s segment),
+    periods_60, now = 100 s, window from 40 s: the hypotheses of C06_partition hold and the
+    periods are P0 (38 s .. 60 s) and P1 (60 s .. 100 s). *)
+Example C06_example :
+  goodTL exTL (Some 19) 90000 120 /\
+  splitPeriod 60 2000 MTimelineNr true 40000 100000 [exAS] =
+  Ok [ {| pd_nr := 0; pd_start := 0;
+          pd_as := [ {| o_pto := 0; o_startNr := Some 19;
+                        o_tl := Some [ {| p_t := Some 3420000; p_d := 180000; p_r := 10 |} ]; o_cont := true |} ] |};
+       {| pd_nr := 1; pd_start := 60;
+          pd_as := [ {| o_pto := 5400000; o_startNr := Some 30;
+                        o_tl := Some [ {| p_t := Some 5400000; p_d := 360000; p_r := 0 |};
+                                       {| p_t := Some 5760000; p_d := 180000; p_r := 17 |} ]; o_cont := true |} ] |} ].
+Proof.
+  split; [|vm_compute; reflexivity].
+  constructor; try (vm_compute; intuition congruence); try (cbn; lia).
+  vm_compute. repeat constructor; intuition congruence.
+Qed.
